@@ -233,7 +233,11 @@ def check_invalid(ctx: Ctx, mode, parts):
         for s in (0,):  # arbitrary offsets would cut valid characters: that is a caller error, not an input
             for e in (n,):
                 ctx.count("evaluations")
-                su.calc_width(text, s, e)
+                wd = su.calc_width(text, s, e)
+                # the two walks over the whole string must agree on its width, however the invalid bytes are counted
+                pos_all, col_all = su.calc_text_pos(text, s, e, 2 * (e - s) + 2)
+                if pos_all != e or col_all != wd:
+                    ctx.violation("width-additive", f"C11/width-vs-position/{mode}/invalid-bytes", case, f"calc_width({text!r}) = {wd} but calc_text_pos walks the same bytes to offset {pos_all} in {col_all} columns")
                 for col in range(0, (e - s) + 2):
                     pos, actual = su.calc_text_pos(text, s, e, col)
                     if not s <= pos <= e or actual > col or actual < 0:
